@@ -632,16 +632,16 @@ pub fn gen_shared_family(r: &mut Rng) -> (Program, Edb, Vec<&'static str>) {
 pub fn gen_bound_rec_family(r: &mut Rng) -> (Program, Edb, Vec<&'static str>) {
     use Lit::*;
     let ea = r.below(2) as u32;
-    let eb = r.below(2) as u32;
+    let eb = if r.chance(2, 3) { 1 - ea } else { ea };
     let v = |i: u32| Term::Var(i);
     let base = Clause { head: 10, args: vec![HTerm::Var(0), HTerm::Var(1)], body: vec![Pos(ea, vec![v(0), v(1)])] };
-    let step = if r.chance(1, 2) {
+    let step = if r.chance(2, 3) {
         Clause { head: 10, args: vec![HTerm::Var(0), HTerm::Var(2)], body: vec![Pos(10, vec![v(0), v(1)]), Pos(eb, vec![v(1), v(2)])] }
     } else {
         Clause { head: 10, args: vec![HTerm::Var(0), HTerm::Var(2)], body: vec![Pos(eb, vec![v(0), v(1)]), Pos(10, vec![v(1), v(2)])] }
     };
     let c = r.range(0, 3);
-    let bound = r.below(2) as u32;
+    let bound = if r.chance(2, 3) { 0 } else { 1 };
     let q = Clause { head: 99, args: vec![HTerm::Var(0), HTerm::Var(1)], body: vec![Pos(10, vec![v(0), v(1)]), Cmp(CmpOp::Eq, v(bound), Term::Int(c))] };
     let mut clauses = vec![base, step];
     if r.chance(1, 3) {
